@@ -829,6 +829,18 @@ func (g *gen) ref(sn *Snap, n Node) SX {
 	}
 }
 
+// root:master~n after a merge: the server resolves it through a loop over a Go map and may pick any
+// lineage of master, or fail; the model accepts whichever it was (Model/RepoRun.v: first_pick).
+// Only used for the node a single-node request addresses.
+func (g *gen) tildeRef(sn *Snap, n Node, orig SX) SX {
+	rv := rootVersion(sn, n.Repo)
+	if rv < 0 || !hasMerge(sn, n.Repo) || !g.rng.Chance(0.12) {
+		return orig
+	}
+	g.stats["master_tilde_after_merge"]++
+	return Cat(T(rv), L(":master~"+strconv.Itoa(g.rng.Intn(3))))
+}
+
 // a reference no well-behaved client would send
 func (g *gen) bogusRef(sn *Snap) SX {
 	n, _ := pickNode(g.rng, sn.Nodes)
@@ -996,7 +1008,7 @@ func (g *gen) next(w *world, sn *Snap, i int) (Req, bool) {
 		if !ok {
 			n = anyNode
 		}
-		rq := Req{Kind: "commit", U: g.ref(sn, n)}
+		rq := Req{Kind: "commit", U: g.tildeRef(sn, n, g.ref(sn, n))}
 		if hostile {
 			if m, ok := pickNode(rng, locked); ok && rng.Bool() {
 				rq.U = g.ref(sn, m) // already committed
@@ -1011,7 +1023,7 @@ func (g *gen) next(w *world, sn *Snap, i int) (Req, bool) {
 		if !ok {
 			n = anyNode
 		}
-		rq := Req{Kind: "newversion", U: g.ref(sn, n), Assign: g.goodAssign()}
+		rq := Req{Kind: "newversion", U: g.tildeRef(sn, n, g.ref(sn, n)), Assign: g.goodAssign()}
 		if hostile {
 			switch rng.Intn(4) {
 			case 0:
@@ -1194,7 +1206,7 @@ func (g *gen) next(w *world, sn *Snap, i int) (Req, bool) {
 		if !ok || k == "repolog" {
 			n = anyNode
 		}
-		rq := Req{Kind: k, U: g.ref(sn, n)}
+		rq := Req{Kind: k, U: g.tildeRef(sn, n, g.ref(sn, n))}
 		if hostile {
 			if m, ok := pickNode(rng, locked); ok && rng.Bool() {
 				rq.U = g.ref(sn, m)
@@ -1387,6 +1399,17 @@ func corpus() [][]Req {
 			{Kind: "note", U: T(2)}, {Kind: "commit", U: P(3, 9)},
 			{Kind: "newrepo", Root: sp(T(2))}, {Kind: "newrepo", Root: sp(T(1))},
 			{Kind: "commit", U: T(2)}, {Kind: "newversion", U: T(2), Assign: T(3)}},
+		// the DAG of the C02 driver: V on master with a master child U; a second newversion on V is
+		// refused; a merge [V, side] gives V a second child on branch "" (merge nodes carry no branch
+		// name) and master two lineages: root:master~0 then resolves to either, or fails, by map order
+		{{Kind: "newrepo"}, {Kind: "commit", U: T(1)}, {Kind: "newversion", U: T(1), Assign: L("")}, {Kind: "commit", U: T(2)},
+			{Kind: "branch", U: T(1), Branch: L("side"), Assign: L("")}, {Kind: "commit", U: T(3)},
+			{Kind: "newversion", U: T(2), Assign: L("")}, {Kind: "newversion", U: T(2), Assign: L("")},
+			{Kind: "merge", U: T(2), MType: "conflict-free", Parents: []SX{T(2), T(3)}},
+			{Kind: "newversion", U: T(2), Assign: L("")},
+			{Kind: "note", U: Cat(T(1), L(":master~0"))}, {Kind: "note", U: Cat(T(1), L(":master~0"))},
+			{Kind: "commit", U: Cat(T(1), L(":master~0"))}, {Kind: "commit", U: Cat(T(1), L(":master~0"))},
+			{Kind: "commit", U: Cat(T(1), L(":master~0"))}, {Kind: "newversion", U: Cat(T(1), L(":master~1")), Assign: L("")}},
 		// resolve refused after it created deletion nodes
 		with(Req{Kind: "newdata", U: T(3), Type: "keyvalue", Name: "d1"},
 			Req{Kind: "newversion", U: T(2), Assign: L("")},
@@ -1567,15 +1590,17 @@ func main() {
 		maxSeq = o.N
 	}
 	rng := lib.NewRand(o.Seed)
-	hostile, reused := 0, 0
+	hostile, reused, tildes := 0, 0, 0
 	for i := 0; i < maxSeq && bytes < budget; i++ {
 		g := &gen{rng: rng, n: 14 + rng.Intn(22), hostile: 0.3, passOf: map[string]string{}, stats: map[string]int{}}
 		so := runSeq(rng, func(w *world, sn *Snap, i int) (Req, bool) { return g.next(w, sn, i) })
 		add("random", so)
 		hostile += g.stats["hostile"]
 		reused += g.stats["reused_deleted_uuid"]
+		tildes += g.stats["master_tilde_after_merge"]
 	}
 	run.Dist["reused_deleted_uuid"] = reused
+	run.Dist["master_tilde_after_merge"] = tildes
 	if o.Thorough() || os.Getenv("C07_ENUM") != "" {
 		n := enumerate(run, total)
 		run.Extra["exhaustive"] = true
